@@ -27,11 +27,11 @@
 (***************************************************************************)
 EXTENDS Naturals, Sequences, TLC
 
-CONSTANTS Sizes, Anns, MaxFaults, FaultKinds, Foreign, MaxHist
+CONSTANTS Sizes, Anns, Devs, MaxFaults, FaultKinds, Foreign, MaxHist
 
-VARIABLES n, ann, fk, sState, sErr, sent, rState, rErr, got, wire, conn, nf, hist
+VARIABLES n, ann, dev, devAt, hsh, nw, fk, sState, sErr, sent, rState, rErr, got, wire, conn, nf, hist
 
-mvars == <<n, ann, fk, sState, sErr, sent, rState, rErr, got, wire, conn, nf>>
+mvars == <<n, ann, dev, devAt, hsh, nw, fk, sState, sErr, sent, rState, rErr, got, wire, conn, nf>>
 vars  == <<mvars, hist>>
 
 FIN == 99999
@@ -43,6 +43,9 @@ AnnHash(a) == a \in {"both", "hash"}
 
 Init ==
     /\ n \in Sizes /\ ann \in Anns /\ fk = "none"
+    \* the receiving application's output device (as in Ibb): accepts everything, or at its devAt-th
+    \* write accepts only part of what it is given (and says so, no error), or fails (-1)
+    /\ dev \in Devs /\ devAt \in (IF dev = "all" THEN {0} ELSE {1}) /\ hsh = <<>> /\ nw = 0
     /\ sState = "Idle" /\ sErr = "NoError" /\ sent = 0
     /\ rState = "None" /\ rErr = "NoError" /\ got = <<>>
     /\ wire = <<>> /\ conn = "none" /\ nf = 0 /\ hist = <<>>
@@ -53,52 +56,56 @@ Start ==
     /\ sState = "Idle"
     /\ sState' = "Transfer" /\ rState' = "Transfer" /\ conn' = "open"
     /\ Log([a |-> "Start"])
-    /\ UNCHANGED <<n, ann, fk, sErr, sent, rErr, got, wire, nf>>
+    /\ UNCHANGED <<n, ann, dev, devAt, fk, sErr, sent, rErr, got, hsh, nw, wire, nf>>
 
 SWrite ==
     /\ sState = "Transfer" /\ conn = "open" /\ sent < n
     /\ wire' = Append(wire, sent + 1) /\ sent' = sent + 1
     /\ Log([a |-> "SWrite"])
-    /\ UNCHANGED <<n, ann, fk, sState, sErr, rState, rErr, got, conn, nf>>
+    /\ UNCHANGED <<n, ann, dev, devAt, fk, sState, sErr, rState, rErr, got, hsh, nw, conn, nf>>
 
 \* everything written (also: nothing to write): success, close the connection
 SDone ==
     /\ sState = "Transfer" /\ conn = "open" /\ sent = n
     /\ sState' = "Finished" /\ sErr' = "NoError" /\ wire' = Append(wire, FIN) /\ conn' = "closed"
     /\ Log([a |-> "SDone"])
-    /\ UNCHANGED <<n, ann, fk, sent, rState, rErr, got, nf>>
+    /\ UNCHANGED <<n, ann, dev, devAt, fk, sent, rState, rErr, got, hsh, nw, nf>>
 
 \* the sender notices that the connection broke
 SDisc ==
     /\ sState = "Transfer" /\ conn = "cut"
     /\ sState' = "Finished" /\ sErr' = (IF AnnSize(ann) /\ n > 0 /\ sent # n THEN "Protocol" ELSE "NoError")
     /\ Log([a |-> "SDisc"])
-    /\ UNCHANGED <<n, ann, fk, sent, rState, rErr, got, wire, conn, nf>>
+    /\ UNCHANGED <<n, ann, dev, devAt, fk, sent, rState, rErr, got, hsh, nw, wire, conn, nf>>
 
 \* checkData: compares what the offer announced (`ann`: size and/or hash; a size of 0 = none)
-Check(g) == IF /\ (AnnSize(ann) /\ n > 0) => Len(g) = n
-               /\ AnnHash(ann) => g = File(n)
-            THEN "NoError" ELSE "FileCorrupt"
+\* the size counter advances by what the device accepted, the hash is over what was received
+ShortBy(w) == dev = "short" /\ w >= devAt
+Check(g, h, w) == IF /\ (AnnSize(ann) /\ n > 0) => (Len(g) = n /\ ~ShortBy(w))
+                     /\ AnnHash(ann) => h = File(n)
+                  THEN "NoError" ELSE "FileCorrupt"
 
 RRead ==
     /\ wire # <<>> /\ Head(wire) # FIN
     /\ wire' = Tail(wire)
     /\ IF rState = "Transfer"
-       THEN LET g == Append(got, Head(wire)) IN
-            /\ got' = g
-            /\ IF AnnSize(ann) /\ n > 0 /\ Len(g) >= n      \* the announced size is there
-               THEN rState' = "Finished" /\ rErr' = Check(g)
+       THEN LET bad == dev # "all" /\ nw + 1 = devAt
+                g == IF ~bad THEN Append(got, Head(wire)) ELSE IF dev = "short" THEN Append(got, 0) ELSE got
+                h == IF bad /\ dev = "fail" THEN hsh ELSE Append(hsh, Head(wire)) IN
+            /\ got' = g /\ hsh' = h /\ nw' = nw + 1
+            /\ IF AnnSize(ann) /\ n > 0 /\ Len(g) >= n /\ ~ShortBy(nw + 1)     \* the announced size is there
+               THEN rState' = "Finished" /\ rErr' = Check(g, h, nw + 1)
                ELSE UNCHANGED <<rState, rErr>>
-       ELSE UNCHANGED <<got, rState, rErr>>      \* finished: what still arrives is ignored
+       ELSE UNCHANGED <<got, hsh, nw, rState, rErr>>      \* finished: what still arrives is ignored
     /\ Log([a |-> "RRead"])
-    /\ UNCHANGED <<n, ann, fk, sState, sErr, sent, conn, nf>>
+    /\ UNCHANGED <<n, ann, dev, devAt, fk, sState, sErr, sent, conn, nf>>
 
 RDisc ==
     /\ wire # <<>> /\ Head(wire) = FIN
     /\ wire' = Tail(wire)
-    /\ IF rState = "Transfer" THEN rState' = "Finished" /\ rErr' = Check(got) ELSE UNCHANGED <<rState, rErr>>
+    /\ IF rState = "Transfer" THEN rState' = "Finished" /\ rErr' = Check(got, hsh, nw) ELSE UNCHANGED <<rState, rErr>>
     /\ Log([a |-> "RDisc"])
-    /\ UNCHANGED <<n, ann, fk, sState, sErr, sent, got, conn, nf>>
+    /\ UNCHANGED <<n, ann, dev, devAt, fk, sState, sErr, sent, got, hsh, nw, conn, nf>>
 
 Fault(k) ==
     /\ nf < MaxFaults /\ k \in S5Faults
@@ -112,7 +119,7 @@ Fault(k) ==
          [] k = "Cut"  -> wire' = <<FIN>> /\ conn' = "cut"
     /\ nf' = nf + 1 /\ fk' = k
     /\ Log([a |-> "Fault", k |-> k, u |-> Head(wire)])
-    /\ UNCHANGED <<n, ann, sState, sErr, sent, rState, rErr, got>>
+    /\ UNCHANGED <<n, ann, dev, devAt, sState, sErr, sent, rState, rErr, got, hsh, nw>>
 
 \* during the negotiation: the stream host offer (right session id) from a foreign full JID -- a
 \* stranger ("from") or another resource of the sender's account ("res").  The job is found by full
@@ -134,17 +141,18 @@ Success(st, er) == st = "Finished" /\ er = "NoError"
 \* makes the announced size arrive early, with read boundaries deciding what is seen); with
 \* nothing announced nothing can be noticed: only the fault-free clause is claimed
 Detectable(k, a) == AnnHash(a) \/ (a = "size" /\ k \in {"Drop", "Cut"})
-P_Safe(a, rs, re, eq)     == (AnnHash(a) /\ Success(rs, re)) => eq
+SafeClaim(a, d) == CASE d = "all" -> AnnHash(a) [] d = "short" -> AnnSize(a) [] d = "fail" -> AnnSize(a) \/ AnnHash(a)
+P_Safe(a, d, rs, re, eq)  == (SafeClaim(a, d) /\ Success(rs, re)) => eq
 P_FaultDetected(a, k, nflt, rs, re) == (nflt = 1 /\ Detectable(k, a)) => ~Success(rs, re)
-P_CleanSuccess(nflt, q, rs, re, ss, se, eq) == (q /\ nflt = 0) => (Success(rs, re) /\ Success(ss, se) /\ eq)
+P_CleanSuccess(nflt, d, q, rs, re, ss, se, eq) == (q /\ nflt = 0 /\ d = "all") => (Success(rs, re) /\ Success(ss, se) /\ eq)
 
 \* on the observation of the job before and after the foreign offer, and of the trap
 P_ForeignInert(rs0, re0, rs1, re1, trap) == rs1 = rs0 /\ re1 = re0 /\ trap = 0
 
 AtRest == sState = "Finished" /\ wire = <<>>
-Safe          == P_Safe(ann, rState, rErr, got = File(n))
+Safe          == P_Safe(ann, dev, rState, rErr, got = File(n))
 FaultDetected == P_FaultDetected(ann, fk, nf, rState, rErr)
-CleanSuccess  == P_CleanSuccess(nf, AtRest, rState, rErr, sState, sErr, got = File(n))
+CleanSuccess  == P_CleanSuccess(nf, dev, AtRest, rState, rErr, sState, sErr, got = File(n))
 TypeOK ==
     /\ sent \in 0..n /\ nf \in 0..MaxFaults
     /\ sState \in {"Idle", "Transfer", "Finished"} /\ rState \in {"None", "Transfer", "Finished"}
@@ -152,8 +160,8 @@ TypeOK ==
 \* both jobs finish in every fair behaviour, whatever the proxy does
 Termination == <>[](sState = "Finished" /\ rState = "Finished" /\ wire = <<>>)
 
-Reinit(k, a) ==
-    /\ n' = k /\ ann' = a /\ fk' = "none"
+Reinit(k, a, d) ==
+    /\ n' = k /\ ann' = a /\ fk' = "none" /\ dev' = d /\ devAt' = (IF d = "all" THEN 0 ELSE 1) /\ hsh' = <<>> /\ nw' = 0
     /\ sState' = "Idle" /\ sErr' = "NoError" /\ sent' = 0
     /\ rState' = "None" /\ rErr' = "NoError" /\ got' = <<>>
     /\ wire' = <<>> /\ conn' = "none" /\ nf' = 0 /\ hist' = <<>>
